@@ -81,6 +81,12 @@ def drivers(ctx, crate, rec, it):
     ctx.report(clause, "internal:small-cone-filter-uses-threshold", bool(lower) and bool(ts) and all(l.args[0] in [t.ret for t in ts] for l in lower), "shs_lower_than(shs_max) receives that threshold", at=it.body.span, kind="N")
 
 
+def term_is_u64(v):
+    from sym import term_ty
+    try: return term_ty(v) in ('u64', None)
+    except Exception: return True
+
+
 def custom(ctx, crate):
     clause = "custom-variant"
     fn = L + "cone_coverage_approx_custom"
@@ -103,14 +109,23 @@ def custom(ctx, crate):
     tl = "nested::bmoc::BMOCBuilderUnsafe::to_lower_depth"
     bl = ctx.anchor(crate, tl, clause)
     if bl is not None:
-        e2 = Engine(crate); stores = []
+        e2 = Engine(crate); stores = []; somes = set()
         e2.store_hook = lambda t, v, loc, facts: stores.append((t, v, loc, facts)) if loc[0] == tl else None
+        def vh2(v, loc, facts):
+            # `pending = Some(hash)` written as an assignment
+            if loc[0] == tl and v[0] == 'agg' and v[1] == 'adt:std::option::Option' and v[2] == 1 and v[3] and term_is_u64(v[3][0]): somes.add(loc[2])
+        e2.value_hook = vh2
         e2.run(tl); ctx.functions |= e2.visited_fns
-        # the final flush: a store after the loop guarded by is_some() of the pending hash
-        is_some = [ev for ev in e2.events.values() if ev.callee and strip_generics(ev.callee).endswith("Option::is_some")]
-        replace = [ev for ev in e2.events.values() if ev.callee and strip_generics(ev.callee).endswith("Option::replace")]
-        ctx.report(clause, tl + ":pending-coarse-cell-tracked-and-flushed", len(is_some) >= 2 and len(replace) >= 2,
-                   "pending coarse hash: %d replace sites, %d is_some tests (one inside the loop, one after it)" % (len(replace), len(is_some)), at=bl.span, kind="N")
+        # the pending coarse hash is an Option<u64>: it is (re)set at two places at least (first deep entry, change of
+        # coarse cell) and looked at at two places at least (inside the loop, and after it for the final flush) —
+        # through replace / `= Some(..)`, and is_some / take / `if let`, whichever way it is written
+        name = lambda ev: strip_generics(ev.callee).rsplit("::", 1)[-1] if ev.callee else ""
+        is_some = [ev for ev in e2.events.values() if ev.callee and "Option" in strip_generics(ev.callee) and name(ev) in ("is_some", "is_none", "take")]
+        replace = [ev for ev in e2.events.values() if ev.callee and "Option" in strip_generics(ev.callee) and name(ev) == "replace"]
+        discr = {loc[2] for d_, loc in e2.branches if loc[0] == tl and d_[0] == 'discr'}
+        n_set = len(replace) + len(somes); n_look = len({ev.at for ev in is_some}) + len(discr)
+        ctx.report(clause, tl + ":pending-coarse-cell-tracked-and-flushed", n_look >= 2 and n_set >= 2,
+                   "pending coarse hash: set at %d site(s), looked at at %d (inside the loop and after it)" % (n_set, n_look), at=bl.span, kind="N")
 
 
 def run(ctx):
@@ -127,7 +142,7 @@ def run(ctx):
     from rules.c16 import depth0_bound
     depth0_bound(ctx, crate, clause="bounds")
     n = haversine.check_all(ctx, crate)
-    ctx.floor("haversine-call-sites", n, 4)
+    ctx.floor("haversine-call-sites", n, 3)      # 4 on the tree it was armed on; two of them may share one closure
     ctx.not_decided("the no-miss claim itself: that the start cells cover the cone, that the per-depth distance bounds are upper bounds, haversine rounding (float geometry)")
     from rules import cancellation
     cancellation.check(ctx, ctx.crate("rel"), ['nested::cone_coverage_approx', 'nested::cone_coverage_approx_custom', 'nested::cone_coverage_approx_flat', 'nested::Layer::cone_coverage_approx', 'nested::Layer::cone_coverage_approx_custom'], floor=69)
